@@ -10,6 +10,8 @@ open Sexp
 
 structure DState where
   subs : List (String × SubSig) := []
+  /-- compiled bodies of the registered sub-routines as read from their REAL emitted text -/
+  subBodies : List (String × (List String × ILEffect)) := []
 deriving Inhabited
 
 def baseMacros : List (String × MacroSig) :=
@@ -138,7 +140,11 @@ def handleText (st : DState) : List Sexp → Option (DState × Sexp)
       let pureParams := ps.map (fun (n, s) => (n, s.getD .ext))
       let rep := analyse st pureParams text
       let sig : SubSig := { ret := ret, params := ps.map (·.2), locals := rep.locals }
-      some ({ st with subs := st.subs.filter (fun (n, _) => n != name) ++ [(name, sig)] }, rep.toSexp)
+      let body : ILEffect := match (parseBody text).bind denoteIL with
+        | some t => effectOfTerm t
+        | none => .call "?unparsed" []
+      some ({ st with subs := st.subs.filter (fun (n, _) => n != name) ++ [(name, sig)],
+                      subBodies := st.subBodies.filter (fun (n, _) => n != name) ++ [(name, (ps.map (·.1), body))] }, rep.toSexp)
   | [.atom "reset"] => some ({}, .atom "ok")
   | _ => none
 
